@@ -53,7 +53,7 @@ func c02Oracle(sp *Spec, x *X, res *mcrt.Result) (string, string) {
 }
 
 var c02Alphabet = []Op{
-	{K: "add", B: 1}, {K: "incr", B: 0, N: 1}, {K: "incr", B: 0, N: 3}, {K: "setcur", B: 0, N: 2}, {K: "settotal", B: 0, N: -1, F: true},
+	{K: "add", B: 1}, {K: "incr", B: 0, N: 1}, {K: "incr", B: 0, N: 3}, {K: "setcur", B: 0, N: 2}, {K: "setcur", B: 0, N: 7}, {K: "settotal", B: 0, N: -1, F: true},
 	{K: "trigger", B: 0}, {K: "refill", B: 0, N: 1}, {K: "abort", B: 0}, {K: "abort", B: 0, F: true}, {K: "prio", B: 0, N: 4},
 	{K: "write", S: "text\n"}, {K: "get", B: 0}, {K: "traverse", B: 0}, {K: "proxyr", B: 0}, {K: "proxyw", B: 0}, {K: "ewma", B: 0, N: 1}, {K: "avgadj", B: 0},
 }
@@ -150,6 +150,31 @@ func c02Programs(tier string) []*Spec {
 		sp.Clients = [][]Op{ops}
 		sp.Late = c02Late
 		out = append(out, sp)
+	}
+	// a bar queued behind a predecessor that leaves by removal (abort+drop, remove-on-complete)
+	for _, rf := range []string{"auto", "manual"} {
+		for _, how := range []string{"abortdrop", "rm"} {
+			sp := &Spec{Name: "c02-queued-after-" + how, Refresh: rf, Q: -1}
+			sp.Bars = []BarSpec{{Total: 1, Rm: how == "rm"}, {Total: 1, After: 1}, {Total: 1}}
+			sp.Main = []Op{{K: "add", B: 0}, {K: "add", B: 1}, {K: "add", B: 2}}
+			end := Op{K: "incr", B: 0, N: 1}
+			if how == "abortdrop" {
+				end = Op{K: "abort", B: 0, F: true}
+			}
+			ops := []Op{end}
+			if rf == "manual" {
+				ops = append(ops, Op{K: "refresh"}, Op{K: "refresh"}, Op{K: "refresh"}, Op{K: "refresh"})
+			} else {
+				ops = append(ops, Op{K: "barwait", B: 0}, Op{K: "sleep", N: 250})
+			}
+			ops = append(ops, Op{K: "incr", B: 1, N: 1}, Op{K: "incr", B: 2, N: 1})
+			if rf == "manual" {
+				ops = append(ops, Op{K: "refresh"}, Op{K: "refresh"}, Op{K: "refresh"})
+			}
+			sp.Clients = [][]Op{ops}
+			sp.Late = c02Late
+			out = append(out, sp)
+		}
 	}
 	// a priority change addressed to a bar that has already been dropped from the container
 	for _, rf := range []string{"auto", "manual"} {
